@@ -97,17 +97,45 @@ def run_reader_path(text, widths, delimiter):
         return "foreign:" + type(error).__name__, [list(r) for r in rows], repr(error)
 
 
+_CIDS = {}
+
+
+def run_reader_cid(text, widths, delimiter):
+    """The same reading through cutplace.rows under a CID that declares the widths and the line delimiter setting
+    (every field is an optional Text field, so no row is rejected for its content)."""
+    import cutplace
+
+    m = harness.modules()
+    key = (tuple(widths), delimiter)
+    if key not in _CIDS:
+        rows = [["D", "Format", "Fixed"], ["D", "Encoding", "utf-8"], ["D", "Line delimiter", delimiter_name(delimiter)]]
+        rows += [["F", "f%d" % i, "", "X", str(w)] for i, w in enumerate(widths)]
+        _CIDS[key] = harness.make_cid(rows)
+    rows = []
+    try:
+        for row in cutplace.rows(_CIDS[key], harness.NamedStringIO(text)):
+            rows.append(row)
+        return "ok", [list(r) for r in rows], None
+    except m["errors"].DataFormatError as error:
+        return "error", [list(r) for r in rows], str(error)
+    except Exception as error:
+        return "foreign:" + type(error).__name__, [list(r) for r in rows], repr(error)
+
+
 def delimiter_name(delimiter):
     return {"any": "any", "\n": "lf", "\r": "cr", "\r\n": "crlf", None: "none"}[delimiter]
 
 
 def judge_complete(text, widths, delimiter, part, case=None, via_path=False):
     """Judge one complete input by the statement. -> outcome kind"""
-    via_path = via_path or bool(case and case.get("via_path"))
-    kind, rows, detail = run_reader_path(text, widths, delimiter) if via_path else run_reader(text, widths, delimiter, True)
+    via_path = via_path or (case and case.get("via_path")) or False
+    if via_path == "cid":
+        kind, rows, detail = run_reader_cid(text, widths, delimiter)
+    else:
+        kind, rows, detail = run_reader_path(text, widths, delimiter) if via_path else run_reader(text, widths, delimiter, True)
     part.transitions += 1
     part.validated += 1
-    tag = "%s|%s%%s" % (delimiter_name(delimiter), "file-opened-by-the-reader:" if via_path else "")
+    tag = "%s|%s%%s" % (delimiter_name(delimiter), "declared-in-a-cid:" if via_path == "cid" else ("file-opened-by-the-reader:" if via_path else ""))
     case = case or {"text": text, "widths": list(widths), "delimiter": delimiter, "via_path": via_path}
     total = sum(widths)
     if kind == "ok":
@@ -248,6 +276,9 @@ def run(ctx):
     path_length = 5 if quick else 7
     path_items = [(widths, delimiter, path_length, "ab\r\n", True) for widths in ([1], [2], [1, 2], [2, 1, 1]) for delimiter in DELIMITERS]
     ctx.pmap(MOD, "enumerate_strings", path_items, label="C13 enumeration through files")
+    # and through cutplace.rows under a CID that declares widths and line delimiter (the setting has to reach the reader unchanged)
+    cid_items = [(widths, delimiter, path_length + 1, "ab\r\n", "cid") for widths in ([1], [2], [1, 2], [2, 1, 1]) for delimiter in DELIMITERS]
+    ctx.pmap(MOD, "enumerate_strings", cid_items, label="C13 enumeration through CIDs")
     fix_lists = [[1], [2], [1, 1], [2, 1], [1, 2], [3], [1, 1, 1], [2, 2], [3, 1], [1, 3], [1, 2, 1], [2, 1, 2], [3, 3]] if quick else width_lists("thorough")
     fix_items = []
     for widths in fix_lists:
@@ -262,6 +293,7 @@ def run(ctx):
     ctx.bound = {"bounded enumeration": "all strings over {a,b,CR,LF} up to length %d x %d width lists x 5 delimiter settings" % (max_length, len(width_lists(ctx.tier))),
                  "fixpoint search": "%d (width list, delimiter) configurations explored to the fixpoint of the product (reader frame state x specification automata): all inputs of every length over the alphabet ({a,CR,LF} when the record is wider than %d)" % (len(fix_items), 4 if quick else 6)}
     ctx.bound["files opened by the reader"] = "all strings up to length %d x 4 width lists x 5 delimiter settings stored in a file and read through its path" % path_length
+    ctx.bound["declared in a CID"] = "all strings up to length %d x 4 width lists x 5 line delimiter settings read through cutplace.rows under a fixed CID" % (path_length + 1)
     ctx.bound["single-character mutations"] = "%d (width list, delimiter, record count) files: every deletion, insertion and replacement (x, CR, LF, blank, FF, LS) at every offset, with and without the final delimiter" % len(mutation_items)
     ctx.rule = ("(1) plain enumeration; (3) every single-character mutation of longer well-formed files; (2) BFS over input prefixes, one character at a time, state = snapshot of the fixed_rows generator frame at the blocked read (call-site lines, "
                 "all locals but message-only ones, push-back, unconsumed characters) x greedy and canonical specification states; every visited prefix is also judged as a complete "
